@@ -237,4 +237,4 @@ def o_paste(case, T):
 
 
 def build(chk: Check) -> None:
-    chk.sub("paste", o_paste, strategy=s_case(), n={"quick": 12000, "thorough": 250000}, shrink=True)
+    chk.sub("paste", o_paste, cov={"quick": 1500, "thorough": 100000}, strategy=s_case(), n={"quick": 12000, "thorough": 250000}, shrink=True)
